@@ -1,16 +1,33 @@
 """C20 — a suspended task resumes exactly once, however resume races with suspension (DESIGN.md §3 C20).
 
-Tie: E-GEN (stack_state enum values) + E-SHIM on the WHOLE instrumented runtime with real coroutine switches
-(ucontext under the baton scheduler).  Every access to every suspend point's m_stack_state / m_is_owner_recalled and
-every resume-task publication is validated, event by event, as an enabled transition of the Lean model `SuspendPoint`
-(Model/C20.lean) with the same values read and written; implementation-side monitors (continuation counter, ghost
-"resume called" flag, concurrent-continuation counter, wait-returns-after-continuation, deadlock detection of the
-scheduler) check the property itself and produce the replays."""
+Three models, all tied to /repo's current tree on every run:
+
+* `SuspendPoint` (Model/C20.lean) — the hand-shake on m_stack_state / m_is_owner_recalled.  Tie: E-GEN (stack_state enum
+  values) + E-SHIM on the WHOLE instrumented runtime with real coroutine switches (ucontext under the baton scheduler).
+  Every access to every suspend point's state words and every resume-task publication is validated, event by event, as
+  an enabled transition of the model with the same values read and written.
+* `Disp` (Model/C20Disp.lean) — the dispatch context the suspending thread continues in: the dispatcher it moves onto
+  starts with no isolation whatever the isolation of the suspended region, so its loop accepts every task (theorem
+  suspended_thread_takes_any_task).  Tie: the filters of the task sources are translated from the C++ expressions, the
+  initial isolation of the new dispatcher is OBSERVED white-box on the instrumented runtime (and checked in the source
+  text); both are generated facts that the theorem's hypotheses pin.
+* `Sleep` (Model/C20Sleep.lean) — resume versus the sleep of the arena's only thread (theorem resume_not_lost_by_sleep:
+  the concurrent_monitor argument instantiated with coroutine_waiter's wake-up condition).  Tie: wake-up condition,
+  has_tasks scan, push-then-advertise and recall-then-notify orders are generated facts pinned by the theorem.
+
+Implementation-side monitors (continuation counter, ghost "resume called" flag, concurrent-continuation counter,
+wait-returns-after-continuation, scheduler deadlock / livelock detection, "work spawned before the suspension is run by
+the suspending thread meanwhile") check the property itself and produce the replays.  Schedules: seeded random, targeted
+(foreign resume after k steps of the suspending thread) and STATE-GUIDED (harness/c20/sr.cpp GuidedSchedule: hold a
+thread wherever it is, run another one until a condition on the live runtime state holds) — used to drive the suspending
+thread through its idle back-off into out_of_work() and the sleep, with the foreign resume() (whole, and split at every
+one of its own scheduling points) or the owner recall released at EVERY scheduling point of that path."""
 import json
 import os
 import re
 from concurrent.futures import ThreadPoolExecutor
 
+import cexpr
 import common
 from common import REPO, cxx_build, drv, gen_write, log, sh
 
@@ -22,13 +39,62 @@ ENOUGH = 12           # stop launching runs once this many runs violated a monit
 # ------------------------------------------------------------------------------------------------------------------
 # E-GEN
 # ------------------------------------------------------------------------------------------------------------------
-def gen(ck):
+def _src(rel):
+    return open(os.path.join(REPO, rel)).read()
+
+
+def _nocomment(t):
+    t = re.sub(r"/\*.*?\*/", " ", t, flags=re.S)
+    return re.sub(r"//[^\n]*", "", t)
+
+
+def _body(text, head_re):
+    """text of the {...} block that follows the first match of head_re (comments stripped), or None"""
+    text = _nocomment(text)
+    m = re.search(head_re, text)
+    if not m:
+        return None
+    i = text.find("{", m.end() - 1)
+    if i < 0:
+        return None
+    d = 0
+    for j in range(i, len(text)):
+        if text[j] == "{":
+            d += 1
+        elif text[j] == "}":
+            d -= 1
+            if d == 0:
+                return text[i + 1:j]
+    return None
+
+
+ISO_ENV = {"isolation": ("isolation", "u64"), "no_isolation": ("(0 : Nat)", "u64"), "task_iso": ("task_iso", "u64"),
+           "fifo_allowed": ("true", "bool")}
+
+
+def _iso_expr(ck, what, text, fallback):
+    """translate a C++ isolation test to Lean over (isolation task_iso : Nat); record an obligation"""
+    if text is None:
+        ck.oblige("gen:%s — expression found in the source" % what, "generated", False, "pattern not found")
+        return fallback
+    e = re.sub(r"task_accessor::isolation\(\s*\*\s*\w+\s*\)", "task_iso", text.strip())
+    try:
+        lean, _ = cexpr.translate(e, ISO_ENV, want="bool")
+        ck.oblige("gen:%s — expression found in the source" % what, "generated", True, e)
+        return lean
+    except cexpr.CExprError as ex:
+        ck.oblige("gen:%s — expression found in the source" % what, "generated", False, "cannot translate `%s`: %s" % (e, ex))
+        return fallback
+
+
+def gen_static(ck):
+    """E-GEN, source-text part.  Returns the Lean definitions (without the observed coroutine isolation)."""
     exe = cxx_build("C20", "consts", ["harness/c20/consts.cpp"], flags=["-O0", "-fno-access-control", "-D__TBB_BUILD", "-I" + REPO + "/src"])
     rc, out, err = sh([exe], timeout=60)
     c = json.loads(out)
     ck.extra["generated_constants"] = c
-    gen_write("C20", "".join("def %s : Nat := %d\n" % (k, v) for k, v in sorted(c.items())))
-    src = open(os.path.join(REPO, "src/tbb/scheduler_common.h")).read()
+    lean = "".join("def %s : Nat := %d\n" % (k, v) for k, v in sorted(c.items()))
+    src = _src("src/tbb/scheduler_common.h")
     m = re.search(r"std::atomic<stack_state>\s+m_stack_state\s*\{\s*stack_state::(\w+)\s*\}", src)
     ck.oblige("gen:m_stack_state starts as `active` (default member initialiser in scheduler_common.h)", "generated",
               bool(m) and m.group(1) == "active", "found: %s" % (m.group(0) if m else "no initialiser matched"))
@@ -37,6 +103,125 @@ def gen(ck):
     ck.extra["documented_chains"] = doc
     ck.oblige("gen:documented transition chains are A->S->N->A and A->N->S->N->A (comment in scheduler_common.h; theorem stack_state_chains)",
               "generated", doc == ["A->S->N->A", "A->N->S->N->A"], "comment says: %s" % doc)
+
+    # ---- the sleeper's side: coroutine_waiter::pause, arena::is_empty, arena::has_tasks -------------------------------
+    facts = {}
+    w = _body(_src("src/tbb/waiters.h"), r"class\s+coroutine_waiter\b[^{;]*\{")
+    pm = re.search(r"auto\s+wakeup_condition\s*=\s*\[&\]\s*\{\s*return\s+(.*?);\s*\}\s*;", w or "", re.S)
+    pred_txt, pred_lean = (pm.group(1).strip() if pm else None), "false"
+    if pred_txt:
+        e = re.sub(r"my_arena\.is_empty\(\)", "(!non_empty)", pred_txt)
+        e = re.sub(r"sp->m_is_owner_recalled(\.load\([^)]*\))?", "recalled", e)
+        try:
+            pred_lean = cexpr.translate(e, {"non_empty": ("non_empty", "bool"), "recalled": ("recalled", "bool")}, want="bool")[0]
+        except cexpr.CExprError as ex:
+            pred_txt = None
+            facts["wakeup_condition_error"] = "%s: %s" % (e, ex)
+    facts["coroutine_waiter wakeup_condition"] = pred_txt
+    ck.oblige("gen:coroutine_waiter::pause — wake-up condition found and translated (waiters.h)", "generated", bool(pred_txt),
+              pred_txt or facts.get("wakeup_condition_error", "lambda `wakeup_condition` not found in class coroutine_waiter"))
+    lean += "/-- coroutine_waiter::pause: `%s` -/\ndef coWakeupPred (non_empty recalled : Bool) : Bool := %s\n" % (pred_txt, pred_lean)
+    ah = _nocomment(_src("src/tbb/arena.h"))
+    ie = re.search(r"bool\s+is_empty\(\)\s*\{\s*return\s+(.*?);\s*\}", ah)
+    te = re.search(r"bool\s+test\([^)]*\)\s*\{\s*return\s+(.*?);\s*\}", ah)
+    ok_ie = bool(ie) and re.sub(r"\s+", "", ie.group(1)) == "my_pool_state.test()==false"
+    ok_te = bool(te) and re.sub(r"\s+", "", te.group(1)) == "my_state.load(order)!=UNSET"
+    ck.oblige("gen:arena::is_empty() is `my_pool_state.test() == false` and atomic_flag::test is `state != UNSET` (the model's `pool ≠ unset`)",
+              "generated", ok_ie and ok_te, "is_empty: %s; test: %s" % (ie.group(1) if ie else None, te.group(1) if te else None))
+    ht = _body(_src("src/tbb/arena.cpp"), r"bool\s+arena::has_tasks\s*\(\s*\)\s*\{")
+    scan_r = bool(ht) and bool(re.search(r"\|\|\s*!\s*my_resume_task_stream\.empty\(\)", ht))
+    scan_c = bool(ht) and bool(re.search(r"\|\|\s*!\s*my_critical_task_stream\.empty\(\)", ht))
+    facts["has_tasks scans resume / critical stream"] = [scan_r, scan_c]
+    lean += "def hasTasksScansResume : Bool := %s\n" % ("true" if scan_r and scan_c else "false")
+    # ---- the notifiers' side: r1::resume, post_resume_action::notify -----------------------------------------------------
+    tc = _src("src/tbb/task.cpp")
+    rb = _body(tc, r"\bvoid\s+resume\s*\(\s*suspend_point_type\s*\*\s*sp\s*\)\s*\{")
+    blk = _body(rb or "", r"if\s*\(\s*sp->try_notify_resume\(\)\s*\)\s*\{") if rb else None
+    pushes = [m.start() for m in re.finditer(r"\.push\s*\(", blk or "")]
+    adv = re.search(r"\ba\.advertise_new_work\s*<\s*arena::wakeup\s*>\s*\(\s*\)\s*;", blk or "")
+    depth_ok = False
+    if adv:     # the call must be a statement of the block itself, not nested in a condition
+        pre = blk[:adv.start()]
+        depth_ok = pre.count("{") == pre.count("}")
+    advertises = bool(adv) and depth_ok
+    push_first = bool(pushes) and bool(adv) and all(x < adv.start() for x in pushes)
+    pr = re.search(r"a\.my_resume_task_stream\.push\(\s*&sp->m_resume_task\s*,\s*random_lane_selector\(sp->m_random\)\s*\)", blk or "")
+    pc = re.search(r"a\.my_critical_task_stream\.push\(\s*&sp->m_resume_task\s*,\s*random_lane_selector\(sp->m_random\)\s*\)", blk or "")
+    cond = re.search(r"if\s*\(\s*task_disp\.m_properties\.critical_task_allowed\s*\)\s*\{[^{}]*my_resume_task_stream\.push", blk or "")
+    ck.oblige("gen:r1::resume pushes &sp->m_resume_task with random_lane_selector into my_resume_task_stream (critical_task_allowed) "
+              "else into my_critical_task_stream — the streams the dispatch loop and has_tasks() look at (task.cpp)", "generated",
+              bool(pr and pc and cond), "resume-stream push: %s, critical-stream push: %s, selected by critical_task_allowed: %s" % (bool(pr), bool(pc), bool(cond)))
+    facts["r1::resume advertises / push precedes"] = [advertises, push_first]
+    lean += "def resumeAdvertises : Bool := %s\ndef resumePushFirst : Bool := %s\n" % (str(advertises).lower(), str(push_first).lower())
+    pa = _body(tc, r"void\s+task_dispatcher::do_post_resume_action\s*\(\s*\)\s*\{")
+    nb = _body(pa or "", r"case\s+post_resume_action::notify\s*:\s*\{") if pa else None
+    i1 = (nb or "").find("sp->recall_owner()")
+    m3 = re.search(r"get_waiting_threads_monitor\(\)\.notify\(\s*is_our_suspend_point\s*\)", nb or "")
+    m4 = re.search(r"return\s+std::uintptr_t\(sp\)\s*==\s*ctx\.my_uniq_addr\s*;", nb or "")
+    recall_ntf = i1 >= 0 and bool(m3) and m3.start() > i1 and bool(m4)
+    facts["recall_owner() followed by notify(is_our_suspend_point)"] = recall_ntf
+    lean += "def recallNotifies : Bool := %s\n" % str(recall_ntf).lower()
+    # ---- the dispatch context: task-source filters -------------------------------------------------------------------------
+    asl = _nocomment(_src("src/tbb/arena_slot.cpp"))
+    gt = _body(asl, r"arena_slot::get_task_impl\s*\([^)]*\)\s*\{")
+    m = re.search(r"bool\s+omit\s*=\s*(.*?);", gt or "")
+    lean += "def omitLocal (isolation task_iso : Nat) : Bool := %s\n" % _iso_expr(ck, "arena_slot::get_task_impl `omit`", m.group(1) if m else None, "true")
+    st = _body(asl, r"arena_slot::steal_task\s*\([^)]*\)\s*\{")
+    m = re.search(r"if\s*\(\s*result\s*\)\s*\{\s*if\s*\((.*?)\)\s*\{", st or "", re.S)
+    lean += "def stealOk (isolation task_iso : Nat) : Bool := %s\n" % _iso_expr(ck, "arena_slot::steal_task isolation test", m.group(1) if m else None, "false")
+    mb = _body(_src("src/tbb/mailbox.h"), r"task_proxy\s*\*\s*internal_pop\s*\(\s*isolation_type\s+isolation\s*\)\s*\{")
+    m = re.search(r"if\s*\(\s*([^(){};]*?)\s*\)\s*\{\s*while\s*\(\s*([^{};]*?)\s*\)\s*\{", mb or "")
+    lean += "def mailSkip (isolation task_iso : Nat) : Bool := %s\n" % _iso_expr(
+        ck, "mail_outbox::internal_pop skip test", "(%s) && (%s)" % (m.group(1), m.group(2)) if m else None, "true")
+    td = _nocomment(_src("src/tbb/task_dispatcher.h"))
+    m = re.search(r"else\s+if\s*\(\s*(fifo_allowed\s*&&[^\n]*?)\s*\n\s*&&\s*\(t\s*=\s*get_stream_or_critical_task\(ed,\s*a,\s*fifo_stream", td)
+    lean += "def fifoOk (isolation : Nat) : Bool := %s\n" % _iso_expr(ck, "receive_or_steal_task fifo-stream test", m.group(1) if m else None, "false")
+    gc = _body(ah, r"arena::get_critical_task\s*\(\s*unsigned\s*&\s*hint\s*,\s*isolation_type\s+isolation\s*\)\s*\{")
+    m = re.search(r"if\s*\(\s*([^(){};]*?)\s*\)\s*\{\s*return\s+my_critical_task_stream\.pop_specific", gc or "")
+    lean += "def critSpecific (isolation : Nat) : Bool := %s\n" % _iso_expr(ck, "arena::get_critical_task pop_specific test", m.group(1) if m else None, "true")
+    # ---- the dispatch context: where the isolation of a coroutine's dispatcher comes from (source text) ----------------------
+    ed = _body(src, r"struct\s+execution_data_ext\s*:\s*d1::execution_data\s*\{")
+    init_ok = bool(ed) and bool(re.search(r"isolation_type\s+isolation\s*\{\s*\}\s*;", ed))
+    ctor = _body(td, r"inline\s+task_dispatcher::task_dispatcher\s*\(\s*arena\s*\*\s*a\s*\)\s*\{")
+    tdc = _src("src/tbb/task_dispatcher.cpp")
+    bodies = {"task_dispatcher::task_dispatcher": ctor,
+              "create_coroutine": _body(tc, r"task_dispatcher\s*&\s*create_coroutine\s*\(\s*thread_data\s*&\s*td\s*\)\s*\{"),
+              "task_dispatcher::internal_suspend": _body(tc, r"void\s+task_dispatcher::internal_suspend\s*\(\s*\)\s*\{"),
+              "task_dispatcher::resume": _body(tc, r"bool\s+task_dispatcher::resume\s*\(\s*task_dispatcher\s*&\s*target\s*\)\s*\{"),
+              "task_dispatcher::co_local_wait_for_all": _body(tdc, r"void\s+task_dispatcher::co_local_wait_for_all\s*\(\s*\)\s*noexcept\s*\{"),
+              "task_dispatcher::init_suspend_point": _body(tdc, r"void\s+task_dispatcher::init_suspend_point\s*\([^)]*\)\s*\{")}
+    touching = [k for k, b in bodies.items() if b is None or re.search(r"isolation", b)]
+    lw = _body(td, r"d1::task\s*\*\s*task_dispatcher::local_wait_for_all\s*\(\s*d1::task\s*\*\s*t\s*,\s*Waiter\s*&\s*waiter\s*\)\s*\{")
+    loop_iso = bool(lw) and bool(re.search(r"const\s+isolation_type\s+isolation\s*=\s*dl_guard\.old_execute_data_ext\.isolation\s*;", lw))
+    ck.oblige("gen:a new task_dispatcher starts with no isolation (`isolation_type isolation{}`), nothing on the path create_coroutine / "
+              "internal_suspend / resume / co_local_wait_for_all / init_suspend_point mentions isolation, and a dispatch loop filters with the "
+              "dispatcher's own saved value (source text)", "generated", init_ok and not touching and loop_iso,
+              "default initialiser: %s; functions mentioning `isolation` (or not found): %s; loop takes dl_guard.old_execute_data_ext.isolation: %s" % (init_ok, touching, loop_iso))
+    ck.extra["generated_facts"] = facts
+    return lean
+
+
+def gen_finish(ck, lean, probe_runs):
+    """E-GEN, observed part: the isolation of the dispatcher a suspending thread moves onto (white-box observation on the
+    instrumented runtime, scenarios with a suspension inside this_task_arena::isolate), then write Generated/C20.lean."""
+    n = first = idle = zero = 0
+    for r in probe_runs:
+        for k, x in r["susp"].items():
+            if x.get("isolated") and x.get("co_seen"):
+                n += 1
+                first += x.get("co_inherit_first", 0)
+                zero += x.get("co_zero", 0)
+                if r["spec"]["modes"] == "F" and r["spec"]["nwork"] == 0 and r["spec"]["nest"] == 0:
+                    idle += x.get("co_inherit_any", 0)
+    inherits = first > 0 or idle > 0
+    ck.extra["coroutine_isolation_observations"] = {"isolated suspensions observed": n, "new dispatcher had the suspender's tag at the first scheduling point": first,
+                                                    "... at some point while idle": idle, "stayed 0": zero}
+    ck.oblige("gen:the dispatcher a thread moves onto when it suspends inside this_task_arena::isolate was observed (white box, every scheduling point) "
+              "and never carried the suspended region's isolation tag", "generated", n > 0 and not inherits,
+              "observed %d isolated suspensions; inherited at first point: %d, while idle: %d" % (n, first, idle))
+    lean += ("/-- isolation of the dispatcher a suspending thread moves onto, as a function of the suspender's (observed on %d suspensions) -/\n"
+             "def coInit (suspender_iso : Nat) : Nat := %s\n" % (n, "suspender_iso" if inherits else "0" if n else "suspender_iso + 1"))
+    gen_write("C20", lean)
 
 
 # ------------------------------------------------------------------------------------------------------------------
@@ -54,18 +239,21 @@ def spec_args(spec):
         return a + ["rand", str(spec["seed"])]
     if spec["mode"] == "target":
         return a + ["target", str(spec["k"]), str(spec["seed"])]
-    return a + ["replay", spec["schedule"]]
+    if spec["mode"] == "guide":
+        return a + ["guide", str(spec["seed"]), spec["guide"]]
+    return a + ["replay", spec["schedule"]] + (["ticker"] if spec.get("ticker") else [])
 
 
 def spec_name(spec):
-    return "%s P=%d modes=%s nwork=%d nest=%d %s" % (spec["container"], spec["P"], spec["modes"], spec["nwork"], spec["nest"],
-                                                     "rand seed=%d" % spec["seed"] if spec["mode"] == "rand" else
-                                                     "target k=%d seed=%d" % (spec["k"], spec["seed"]) if spec["mode"] == "target" else "replay")
+    how = ("rand seed=%d" % spec["seed"] if spec["mode"] == "rand" else
+           "target k=%d seed=%d" % (spec["k"], spec["seed"]) if spec["mode"] == "target" else
+           "guide seed=%d [%s]" % (spec["seed"], spec["guide"]) if spec["mode"] == "guide" else "replay")
+    return "%s P=%d modes=%s nwork=%d nest=%d %s" % (spec["container"], spec["P"], spec["modes"], spec["nwork"], spec["nest"], how)
 
 
 def run_one(exe, spec):
     rc, out, err = sh([exe] + spec_args(spec), timeout=TIMEOUT)
-    r = {"spec": spec, "rc": rc, "sps": {}, "ev": [], "mon": [], "stat": {}, "susp": {}, "sched": "", "err": err[-400:]}
+    r = {"spec": spec, "rc": rc, "sps": {}, "ev": [], "mon": [], "stat": {}, "susp": {}, "guides": [], "sched": "", "err": err[-400:]}
     for l in out.split("\n"):
         w = l.split()
         if not w:
@@ -77,6 +265,8 @@ def run_one(exe, spec):
             r["sps"][w[1]] = w[2:]
         elif w[0] in ("mon", "mon+"):
             r["mon"].append(" ".join(w[1:]))
+        elif w[0] == "stat" and w[1] == "guide":
+            r["guides"].append({w[i]: int(w[i + 1]) for i in range(3, len(w) - 1, 2)})
         elif w[0] == "stat" and w[1] == "susp":
             r["susp"][int(w[2])] = {w[i]: int(w[i + 1]) for i in range(3, len(w) - 1, 2)}
         elif w[0] == "stat":
@@ -187,6 +377,8 @@ def model_lines(r):
                 else:
                     return None, "thread %d published into %s without a preceding notify exchange" % (t, var), 0
             continue
+        if "." not in var:
+            continue             # pool state, monitor epoch / wait-set size: the Sleep model's words (validate_sleep)
         s, fld = var.rsplit(".", 1)
         if s not in lines:
             continue
@@ -329,8 +521,44 @@ FAMILIES = [
     ("outer", 1, "f", 1, 0), ("outer", 2, "f", 1, 0), ("outer", 3, "ff", 1, 0), ("outer", 2, "s", 1, 0), ("outer", 2, "ft", 1, 0),
 ]
 TARGET_FAMILIES = [("tg", 1, "f", 1, 0), ("tg", 2, "f", 1, 0), ("tg", 2, "ff", 0, 1), ("pfor", 2, "f", 2, 0), ("arena1", 2, "f", 1, 0),
-                   ("outer", 2, "f", 1, 0), ("outer", 1, "f", 0, 0)]
+                   ("outer", 2, "f", 1, 0), ("outer", 1, "f", 0, 0), ("tg", 1, "F", 0, 0), ("outer", 1, "F", 0, 0), ("arena1", 2, "F", 1, 0)]
 KMAX = 14
+
+# suspension inside this_task_arena::isolate (upper-case letters, and i), resumers that exist BEFORE the suspension
+# (p spawned, q enqueued, i isolated spawn), the liveness clause (w: the foreign resumer waits for pre-spawned work),
+# arenas with a single thread (P = 1, arena1), nested isolate + nested suspend (nest = 1)
+ISO_FAMILIES = [
+    ("tg", 1, "P", 0, 0), ("tg", 1, "W", 0, 0), ("tg", 1, "i", 0, 0), ("tg", 1, "Q", 0, 0), ("tg", 1, "F", 1, 0), ("tg", 1, "S", 0, 0),
+    ("tg", 1, "T", 0, 0), ("tg", 1, "p", 0, 0), ("tg", 1, "w", 1, 0), ("tg", 1, "q", 0, 0),
+    ("tg", 2, "P", 1, 0), ("tg", 2, "W", 1, 0), ("tg", 3, "PW", 1, 0), ("tg", 2, "i", 1, 0), ("tg", 2, "Qw", 0, 0),
+    ("outer", 1, "P", 0, 0), ("outer", 1, "W", 0, 0), ("outer", 1, "p", 0, 0), ("outer", 1, "w", 0, 0), ("outer", 2, "W", 1, 0), ("outer", 1, "i", 0, 0),
+    ("arena1", 1, "P", 0, 0), ("arena1", 2, "W", 0, 0), ("arena1", 2, "i", 0, 0), ("arena1", 2, "w", 1, 0), ("arena1", 2, "p", 0, 0),
+    ("pfor", 1, "F", 2, 0), ("pfor", 2, "FS", 2, 0),
+    ("tg", 1, "PW", 0, 1), ("tg", 1, "WP", 0, 1), ("tg", 1, "Pp", 0, 1), ("tg", 1, "ww", 0, 1), ("tg", 2, "FW", 1, 1), ("arena1", 2, "WW", 0, 1),
+    ("tg", 1, "iW", 0, 1), ("outer", 1, "WP", 0, 1),
+    # the only thread that can pick up the resume task sits in a NESTED dispatch loop (optionally an isolated one) on a coroutine
+    ("nwait", 1, "f", 0, 0), ("nwait", 1, "ff", 0, 0), ("nwait", 1, "F", 0, 2), ("nwait", 2, "f", 1, 0), ("nwait", 1, "w", 0, 0), ("nwait", 1, "t", 0, 0),
+    ("nwait", 1, "fs", 1, 2), ("nwait", 3, "fF", 1, 2), ("nwait", 1, "f", 0, 2),
+]
+# families whose only arena thread is the suspending thread: there the pre-spawned work MUST be run by that thread
+SINGLE = lambda fam: fam[1] == 1 or fam[0] == "arena1"
+# observation of the coroutine's initial isolation: the thread idles on the new dispatcher until the resume task arrives
+PROBE_FAMILIES = [("tg", 1, "F", 0, 0), ("outer", 1, "F", 0, 0), ("arena1", 2, "F", 0, 0), ("pfor", 1, "F", 0, 0), ("tg", 1, "P", 0, 0), ("tg", 1, "FF", 0, 1)]
+
+# state-guided schedules that drive the suspending thread through its back-off into out_of_work() and the sleep:
+# (family, what is placed, probe guides, window guides with %d = number of steps of the sleeping thread before the release)
+SLEEP_FAMILIES = [
+    (("tg", 1, "f", 0, 0), "resume", "R:pub;L:busy|blk;L:blk;F:res", "R:pub;L:cnt=%d|blk;F:res", 1, 2),
+    (("tg", 1, "F", 0, 0), "resume", "R:pub;L:busy|blk;L:blk;F:res", "R:pub;L:cnt=%d|blk;F:res", 1, 2),
+    (("arena1", 2, "f", 0, 0), "resume", "R:pub;L:busy|blk;L:blk;F:res", "R:pub;L:cnt=%d|blk;F:res", 1, 2),
+    (("outer", 1, "f", 0, 0), "resume", "R:pub;L:busy|blk;L:blk;F:res", "R:pub;L:cnt=%d|blk;F:res", 1, 2),
+    (("pfor", 1, "f", 0, 0), "resume", "R:pub;L:busy|blk;L:blk;F:res", "R:pub;L:cnt=%d|blk;F:res", 1, 2),
+    (("nwait", 1, "f", 0, 0), "resume", "R:pub;L:busy|blk;L:blk;F:res", "R:pub;L:cnt=%d|blk;F:res", 1, 2),
+    # owner recall: a worker continues the main thread's outermost stack, leaves it at the recall point and is held
+    # before recall_owner(); the owner meanwhile idles on its coroutine and goes to sleep
+    (("outer", 2, "f", 0, 0), "recall", "R:pub;L:ss=1;F:res;W:ss=0;W:ss=1;M:busy|blk;M:blk;W:rc=1", "R:pub;L:ss=1;F:res;W:ss=0;W:ss=1;M:cnt=%d|blk;W:rc=1", 5, 6),
+]
+MARGIN = 40       # scheduling points before the clear transaction opens (covers the waiter's last look at the streams / recall flag)
 
 
 def mkspec(fam, mode, seed, k=0):
@@ -370,9 +598,18 @@ def run_specs(exe, specs):
         except Exception as e:   # a trace the translation cannot even read is a broken correspondence, never silence
             prob, recs, loads = "trace translation failed: %r" % (e,), [], 0
         r["corr"], r["recs"], r["loads"] = prob, recs, loads
-        r["window"] = classify_window(r) if spec["modes"][0] == "f" else None
+        r["scorr"], r["sevents"] = None, 0
+        fam = (spec["container"], spec["P"], spec["modes"], spec["nwork"], spec["nest"])
+        if spec["mode"] == "guide" and spec.get("what") == "resume" and fam in SLEEP_TRACE_FAMILIES and r["rc"] == 0:
+            try:
+                r["scorr"], r["sevents"] = validate_sleep(r)
+            except common.BuildError as e:
+                r["scorr"] = "sleep-model driver failed: %s" % e
+            except Exception as e:
+                r["scorr"] = "sleep trace translation failed: %r" % (e,)
+        r["window"] = classify_window(r) if spec["modes"][0] in "fF" else None
         # keep memory small: the event log is needed again only for a failing run (replay re-runs the scenario anyway)
-        if not prob and r["rc"] == 0:
+        if not prob and not r["scorr"] and r["rc"] == 0:
             r["ev"] = []
         return r
     out, nbad = [], 0
@@ -399,8 +636,15 @@ def mon_problem(r):
     return None
 
 
-def cex_key(text):
+def cex_key(text, spec=None):
     t = text.lower()
+    stuck = "deadlock" in t or "livelock" in t or "hang:" in t
+    if stuck and spec and spec.get("mode") == "guide":
+        return "resume-lost-by-sleeping-thread" if spec.get("what") == "resume" else "owner-recall-lost-by-sleeping-thread"
+    if stuck and spec and any(c.isupper() or c == "i" for c in spec["modes"]) and any(c in "pwPW" for c in spec["modes"]):
+        return "suspended-thread-starves-work-outside-its-isolation"
+    if stuck and spec and any(c in "pqwPQW" for c in spec["modes"]):
+        return "suspended-thread-does-not-run-work-spawned-before-suspension"
     if "deadlock" in t:
         return "suspended-task-never-resumed-deadlock"
     if "livelock" in t or "hang:" in t:
@@ -417,28 +661,222 @@ def cex_key(text):
         return "wait-completed-over-suspended-task"
     if "different thread" in t:
         return "outermost-suspend-continued-on-foreign-thread"
+    if "pre-spawned" in t:
+        return "work-spawned-before-suspension-not-run-by-suspending-thread"
     if "crashed" in t:
         return "runtime-crash-in-suspend-resume"
     return "suspend-resume-monitor"
 
 
 def replay_obj(r, what):
-    return {"engine": "E-SHIM whole runtime", "spec": r["spec"], "args": spec_args(r["spec"]), "monitor": what,
-            "schedule_rle": r["sched"][:20000], "how": "build/C20/sr " + " ".join(spec_args(r["spec"]))}
+    spec = dict(r["spec"])
+    o = {"engine": "E-SHIM whole runtime", "spec": spec, "args": spec_args(spec), "monitor": what,
+         "schedule_rle": r["sched"][:40000], "how": "build/C20/sr " + " ".join("'%s'" % a if ";" in a else a for a in spec_args(spec))}
+    if spec["mode"] == "guide":
+        o["note"] = ("state-guided schedule; the plain schedule it produced is schedule_rle, replayable with "
+                     "`sr <scenario> replay <schedule_rle> ticker`")
+    return o
+
+
+def liveness_problem(r):
+    """The liveness clause on a finished run: in an arena whose only thread is the suspending thread, work that existed
+    before the suspension (modes p, w: spawned by the suspending code right before it suspends) was executed BY THAT THREAD
+    WHILE the task was suspended."""
+    sp = r["spec"]
+    if r["rc"] != 0 or not SINGLE((sp["container"], sp["P"])):
+        return None
+    for k, x in sorted(r["susp"].items()):
+        m = sp["modes"][k].lower() if k < len(sp["modes"]) else "-"
+        if m in "pw" and sp["container"] != "pfor":
+            if x.get("prework_tid", -1) != x.get("cb_tid", -2) or not x.get("prework_during", 0) or x.get("work_by_suspender", 0) < 1:
+                return ("suspension %d: the pre-spawned task was run by thread %d (suspending thread %d), during the suspension: %d "
+                        "— the suspending thread did not execute the work spawned before it suspended" % (k, x.get("prework_tid", -1), x.get("cb_tid", -1), x.get("prework_during", 0)))
+    return None
+
+
+# ------------------------------------------------------------------------------------------------------------------
+# state-guided search: the foreign resume / the owner recall at every scheduling point of the sleep path
+# ------------------------------------------------------------------------------------------------------------------
+def gspec(fam, what, guide, seed):
+    sp = mkspec(fam, "guide", seed)
+    sp["guide"], sp["what"] = guide, what
+    return sp
+
+
+def sleep_probes(ck, nseeds, salt=0):
+    return [(fi, j, gspec(fam, what, probe, ck.seed * 7919 + 31 * fi + j + 1000 * salt))
+            for fi, (fam, what, probe, win, gi, gj) in enumerate(SLEEP_FAMILIES) for j in range(nseeds)]
+
+
+def sleep_windows(probe_results):
+    """probe_results: [(fi, j, run)] -> (window specs, problems).  The probe run lets the sleeping thread go all the way
+    (guide gi ends when the clear transaction opens or the thread blocks, guide gj when it blocks): cW, cPark = steps of
+    that thread at these two states.  The window specs release the resumer / recaller after c = cW-MARGIN .. cPark+2 steps."""
+    specs, problems, info = [], [], []
+    for fi, j, r in probe_results:
+        fam, what, probe, win, gi, gj = SLEEP_FAMILIES[fi]
+        g = r["guides"]
+        if mon_problem(r) or len(g) <= gj or g[gi]["picks"] < 0 or g[gj]["picks"] < 0 or not g[gj]["blk"]:
+            problems.append("%s: probe run did not bring the thread to sleep (%s; guides %s)" % (spec_name(r["spec"]), mon_problem(r) or "ok", g))
+            continue
+        cW, cPark = g[gi]["picks"], g[gi]["picks"] + g[gj]["picks"]
+        info.append({"scenario": spec_name(r["spec"])[:60], "what": what, "steps_to_clear_transaction": cW, "steps_to_park": cPark,
+                     "transaction_opened": g[gi]["pool"] == 2})
+        for c in range(max(0, cW - MARGIN), cPark + 3):
+            specs.append(gspec(fam, what, win % c, r["spec"]["seed"]))
+        if what == "resume" and len(g) > gj + 1 and g[gj + 1]["picks"] > 0:
+            # second dimension: the resume() itself is split — the resumer makes d steps (d = 1 .. all of resume()), is held
+            # again while the thread goes all the way back to sleep (or finishes), and only then completes; released either
+            # after the thread parked or while it is still awake
+            nres = g[gj + 1]["picks"]
+            for c in (cPark + 2, max(0, cW - MARGIN)):
+                for d in range(1, nres + 1):
+                    sp = gspec(fam, what, "R:pub;L:cnt=%d|blk;F:cnt=%d|res;L:blk|cnt=6000;F:res" % (c, d), r["spec"]["seed"])
+                    sp["split"] = d
+                    specs.append(sp)
+    return specs, problems, info
+
+
+def window_class(r):
+    """state of the hand-shake at the moment the resumer / recaller was released"""
+    fam_g = [x for x in SLEEP_FAMILIES if x[0] == (r["spec"]["container"], r["spec"]["P"], r["spec"]["modes"], r["spec"]["nwork"], r["spec"]["nest"]) and x[1] == r["spec"]["what"]]
+    if not fam_g or len(r["guides"]) <= fam_g[0][4]:
+        return None
+    g = r["guides"][fam_g[0][4]]
+    return (r["spec"]["what"], {0: "unset", 1: "set", 2: "busy"}.get(g["pool"], "?"), "in-waitset" if g["ws"] > 0 else "not-in-waitset", "parked" if g["blk"] else "running")
+
+
+# ------------------------------------------------------------------------------------------------------------------
+# trace -> Sleep model (driver c20slv): the words of the resume-versus-sleep hand-shake
+# ------------------------------------------------------------------------------------------------------------------
+SLEEP_TRACE_FAMILIES = {("tg", 1, "f", 0, 0), ("tg", 1, "F", 0, 0), ("arena1", 2, "f", 0, 0), ("outer", 1, "f", 0, 0), ("pfor", 1, "f", 0, 0)}
+
+
+def sleep_lines(r):
+    """Between the end of suspension 0's callback and its continuation: the accesses of the suspending thread (the arena's
+    only thread) and of the foreign resumer to poolL / rtsL / wsz / mep / the recall flag, as input of driver c20slv."""
+    ev = r["ev"]
+    pool = stream = epoch = 0
+    L = None
+    lines, started = [], False
+    for e in ev:
+        t = int(e[0])
+        if e[1] == "note":
+            if e[2] == "cb_end" and e[4] == "0" and not started:
+                started, L = True, t
+                lines.append("init %d %d %d" % (pool, 1 if stream else 0, epoch))
+            elif started and e[2] == "cont" and e[3] == "0":
+                lines.append("S end")
+                break
+            elif started and e[2] == "resume_call" and t != L:
+                lines.append("N %d call" % t)
+            elif started and e[2] == "resume_ret" and t != L:
+                lines.append("N %d ret" % t)
+            continue
+        kind, var = e[1], e[2]
+        a, b, ok = e[4], e[5], e[6]
+        if not started:
+            # keep track of the words' values until the window opens
+            if var == "poolL" and (kind in ("store", "xchg") or (kind == "cas" and ok == "1")):
+                pool = int(a) if kind == "store" else int(b)
+            elif var == "rtsL" and kind in ("for", "fand"):
+                stream = int(b)
+            elif var == "mep" and kind == "store":
+                epoch = int(a)
+            continue
+        who = "S" if t == L else "N %d" % t
+        if var == "poolL":
+            if kind == "load":
+                lines.append("%s load pool %s" % (who, a))
+            elif kind == "cas":
+                lines.append("%s cas pool %s %s %s" % (who, a, b, ok))
+            else:
+                lines.append("%s unknown %s" % (who, " ".join(e)))
+        elif var == "rtsL":
+            if kind == "load" and t == L:
+                lines.append("S load rts %s" % a)
+            elif kind == "fand" and t == L:
+                lines.append("S take")
+            elif kind == "for" and t != L:
+                lines.append("N %d push" % t)
+            elif kind != "load":
+                lines.append("%s unknown %s" % (who, " ".join(e)))
+        elif var == "wsz":
+            if kind == "store":
+                lines.append("%s store wsz %s %s" % (who, a, b))
+            elif kind == "load" and t != L:
+                lines.append("N %d load wsz %s" % (t, a))
+        elif var == "mep":
+            if kind == "load" and t == L:
+                lines.append("S load mep %s" % a)
+            elif kind == "store" and t != L:
+                lines.append("N %d store mep %s %s" % (t, a, b))
+        elif var.endswith(".rc") and t == L:
+            if kind == "load":
+                lines.append("S load rc %s" % a)
+            elif kind == "store" and a == "0":
+                lines.append("S store rc 0")
+    if not started or lines[-1] != "S end":
+        return None        # the suspension did not continue (a monitor reports that)
+    return lines + ["end"]
+
+
+def validate_sleep(r):
+    """Returns (problem or None, number of events the model accepted)."""
+    lines = sleep_lines(r)
+    if lines is None:
+        return None, 0
+    out = drv("c20slv", "\n".join(lines) + "\n")
+    if len(out) != len(lines):
+        return "sleep-model driver produced %d lines for %d inputs" % (len(out), len(lines)), 0
+    for l, o in zip(lines, out):
+        if o.startswith("MISMATCH") or o == "bad-op":
+            return "[%s] -> %s" % (l, o[:300]), 0
+    m = re.match(r"summary fail=(\d) events=(\d+) quiet=(\d) blocked=(\d) lost=(\d)", out[-1])
+    if not m:
+        return "unreadable summary %s" % out[-1][:200], 0
+    if m.group(1) != "0" or m.group(4) != "0":
+        return "at the continuation the model is %s" % out[-1][:200], 0
+    return None, int(m.group(2))
+
+
+def model_search(ck, nruns=4000):
+    """Run random schedules of the Sleep model under the GENERATED configuration (driver c20sl): a state with the sleeper
+    blocked, a task in the stream or the owner recalled, and no notifier step pending is a lost resume on the model."""
+    rng = ck.rng
+    lines = []
+    for i in range(nruns):
+        kinds = rng.choice(["r", "c", "rr", "rc", "r"])
+        ops = rng.choice(["s5", "s5,t,s5", "t,s5", "s5,s7"])
+        n = rng.randrange(8, 40)
+        sched = [rng.choice([0, 0, 0] + list(range(1, len(kinds) + 1))) for _ in range(n)]
+        lines.append("run %d %s %s %s" % (rng.randrange(2), kinds, ops, ",".join(map(str, sched))))
+    try:
+        out = drv("c20sl", "\n".join(lines) + "\n")
+    except common.BuildError as e:
+        return "model driver unavailable: %s" % e
+    best = None
+    for l, o in zip(lines, out):
+        if "lost=1" in o and (best is None or len(l) < len(best[0])):
+            best = (l, o)
+    return best
 
 
 def run(ck):
     quick = ck.tier == "quick"
     ck.rule = ("E-SHIM whole-runtime scenarios = container {task_group, parallel_for, task_arena(1), outermost suspend} x max_allowed_parallelism {1,2,3} x "
-               "per-suspension resumer {foreign thread, task spawned by the callback, the callback itself} x nested suspensions x other work; each under seeded "
-               "random schedules and targeted schedules (foreign resume() run as a block after the suspending thread made k=0..%d scheduling points since its callback "
-               "published the suspend point); distinct = (suspend-point kind, round kind, state chain, who pushed, how the continuation got the stack) classes and "
-               "resume-window classes" % KMAX)
+               "per-suspension resumer {foreign thread, task spawned by the callback, the callback itself, task spawned / enqueued BEFORE suspending, isolated task, "
+               "foreign thread that waits for pre-spawned work} x suspension inside / outside this_task_arena::isolate x nested suspensions x other work; each under "
+               "seeded random schedules and targeted schedules (foreign resume() run as a block after the suspending thread made k=0..%d scheduling points since its "
+               "callback published the suspend point); plus STATE-GUIDED schedules that hold the resumer (or the recalling worker), let the suspending thread spin through "
+               "its idle back-off into out_of_work() and the sleep, and release the held thread after c steps for EVERY c from %d points before the clear transaction "
+               "opens until after the thread is parked; distinct = (suspend-point kind, round kind, state chain, who pushed, how the continuation got the stack) classes, "
+               "resume-window classes and (pool state, wait-set, parked) classes at the release" % (KMAX, MARGIN))
     ck.assumptions += [
         "proved on the model: one suspend point, any number of threads / resumers / rounds, all interleavings of the atomic accesses (sequentially consistent)",
         "the API precondition (resume called exactly once per suspend point handed out) is enforced by the model (violating calls are rejected) and respected by the harness",
-        "not modelled: the register save/restore of the context switch, coroutine stack allocation and cache replacement, the internals of task_stream (push/pop are one step), "
-        "concurrent_monitor (sleep/wake-up of the recalled owner; covered by the scheduler's deadlock detection only), release/acquire visibility (the shim serialises accesses)",
+        "not modelled in SuspendPoint: the register save/restore of the context switch, coroutine stack allocation and cache replacement, the internals of task_stream "
+        "(push/pop are one step), release/acquire visibility (the shim serialises accesses)",
         "the window between swapcontext and the first atomic access on the new stack contains no scheduling point; for the protocol it is equivalent to the points before the switch "
         "(the resumer only reads/writes m_stack_state, the switching thread touches no shared state in it)",
         "the wait_context is modelled abstractly (counter = covered tasks not yet finished; the per-thread reference_vertex proxies are not modelled); on the implementation "
@@ -446,81 +884,162 @@ def run(ck):
         "a suspend point of a slot's default dispatcher is replayed as a new model instance when the slot gets a new occupant (the previous instance must then be quiescent)",
         "state chain A->S->A (A->A for a new coroutine) occurs for coroutine stacks parked in the co-cache and re-entered by a plain switch; it is not listed in the comment of "
         "scheduler_common.h (which covers handed-out suspend points and owner recall only); theorem stack_state_chains proves it never occurs for those",
+        "Sleep model (resume_not_lost_by_sleep): ONE sleeping thread (the arena's only thread) against any number of resumers / recallers; my_mandatory_concurrency, adjust_demand, "
+        "the other task sources and the internals of task_stream / the monitor's list are not modelled; its tie to the code is (a) the regenerated facts (wake-up condition, "
+        "has_tasks scan, push-then-advertise order, recall-then-notify order), (b) event-by-event validation of the accesses to my_pool_state / resume-stream population / monitor epoch "
+        "and wait-set size / recall flag in the guided runs of the single-thread-arena families (the semaphore operations and cancel_wait's look at its node are not observed: the "
+        "model takes those steps as late as possible, and only when enabled), (c) the state-guided search on the implementation; the owner-recall and nested-wait families are "
+        "covered by (a) and (c) only",
+        "Disp model (suspended_thread_takes_any_task): the initial isolation of the dispatcher a suspending thread moves onto is an OBSERVED fact (white-box sampling at every "
+        "scheduling point of the scenarios that suspend inside isolate) plus a source-text check; the filters of the task sources are translated from the C++ expressions",
         "agreement of model and implementation is sampled (explored schedules), not proved"]
-    ck.trusted += ["harness/shim (atomic shim + baton scheduler, dynamic threads, futex emulation)", "harness/c20/sr.cpp monitors and white-box naming of suspend points",
-                   "trace-to-model translation in checks/c20.py (which access plays which role; look-ahead to classify a leave as recall/park/wait)"]
-    gen(ck)
-    ck.lean_stage()
+    ck.trusted += ["harness/shim (atomic shim + baton scheduler, dynamic threads, futex emulation)", "harness/c20/sr.cpp monitors, guided schedule and white-box naming of suspend points",
+                   "trace-to-model translation in checks/c20.py (which access plays which role; look-ahead to classify a leave as recall/park/wait)",
+                   "checks/cexpr.py and the regular expressions of checks/c20.py that locate the generated facts in the source"]
+    lean = gen_static(ck)
     exe = build()
+    # ---- observed fact: isolation of the dispatcher a suspending thread moves onto --------------------------------------------
+    probe_specs = [mkspec(fam, "rand", ck.seed * 131 + 7 * fi + j) for fi, fam in enumerate(PROBE_FAMILIES) for j in range(4)]
+    probe_runs = run_specs(exe, probe_specs)
+    gen_finish(ck, lean, probe_runs)
+    ck.lean_stage()
+    # ---- random + targeted schedules ---------------------------------------------------------------------------------------------
     specs = make_specs(ck, 150 if quick else 1500, 20 if quick else 150)
-    runs = run_specs(exe, specs)
+    specs += make_specs(ck, 60 if quick else 600, 0, families=ISO_FAMILIES, tfamilies=[], salt=3)
+    runs = probe_runs + run_specs(exe, specs)
+    # ---- state-guided schedules through the sleep path -----------------------------------------------------------------------------
+    probes = sleep_probes(ck, 1 if quick else 4)
+    pres = run_specs(exe, [sp for _, _, sp in probes])
+    pr = [(fi, j, r) for (fi, j, _), r in zip(probes, pres)] if len(pres) == len(probes) else []
+    wspecs, wproblems, winfo = sleep_windows(pr)
+    wruns = run_specs(exe, wspecs)
+    ck.extra["sleep_path_probes"] = winfo
+    ck.extra["sleep_path_window_runs"] = len(wruns)
+    runs += pres + wruns
     bad_corr = [r for r in runs if r["corr"]]
+    bad_scorr = [r for r in runs if r.get("scorr")]
+    sleep_validated = sum(1 for r in runs if r.get("sevents"))
+    ck.extra["sleep_traces_validated"] = sleep_validated
+    ck.extra["sleep_trace_events_validated"] = sum(r.get("sevents", 0) for r in runs)
     bad_mon = [(r, mon_problem(r)) for r in runs if mon_problem(r)]
-    classes, windows = {}, {}
-    work_by_suspender = 0
-    cont_other_thread = 0
-    loads = 0
+    bad_live = [(r, liveness_problem(r)) for r in runs if liveness_problem(r)]
+    classes, windows, wclasses = {}, {}, {}
+    work_by_suspender = cont_other_thread = loads = iso_susp = prework_by_suspender = 0
     for r in runs:
         ck.traces_validated += 1
         loads += r["loads"]
         for rec in r["recs"]:
-            sp, kind, chain, calls, pr, pl, via, by, byowner = rec
-            key = ("co" if r["sps"].get(sp, ["co"])[0] == "co" else "default", kind, chain, "pushR" if pr == "1" else "pushL" if pl == "1" else "nopush", via, "owner" if byowner == "1" else "other")
+            sp, kind, chain, calls, pr_, pl, via, by, byowner = rec
+            key = ("co" if r["sps"].get(sp, ["co"])[0] == "co" else "default", kind, chain, "pushR" if pr_ == "1" else "pushL" if pl == "1" else "nopush", via, "owner" if byowner == "1" else "other")
             classes[key] = classes.get(key, 0) + 1
             ck.count(1, key)
         if r["window"]:
             windows[r["window"]] = windows.get(r["window"], 0) + 1
             ck.count(0, ("window", r["window"], r["spec"]["container"], r["spec"]["P"]))
-        for k, s in r["susp"].items():
-            work_by_suspender += 1 if s.get("work_by_suspender", 0) > 0 else 0
-            cont_other_thread += 1 if s.get("cont_tid", -1) != s.get("cb_tid", -1) else 0
+        if r["spec"]["mode"] == "guide" and "cnt=" in r["spec"]["guide"]:
+            wc = window_class(r)
+            if wc:
+                wclasses[wc] = wclasses.get(wc, 0) + 1
+                ck.count(0, ("release",) + wc + (r["spec"]["container"],))
+        for k, x in r["susp"].items():
+            work_by_suspender += 1 if x.get("work_by_suspender", 0) > 0 else 0
+            cont_other_thread += 1 if x.get("cont_tid", -1) != x.get("cb_tid", -1) else 0
+            iso_susp += x.get("isolated", 0)
+            prework_by_suspender += 1 if (x.get("prework_during") and x.get("prework_tid") == x.get("cb_tid")) else 0
     ck.extra["runs"] = len(runs)
     ck.extra["round_classes"] = {" ".join(k): v for k, v in sorted(classes.items())}
     ck.extra["resume_window_classes"] = windows
+    ck.extra["sleep_release_classes"] = {" ".join(k): v for k, v in sorted(wclasses.items())}
     ck.extra["suspensions_where_suspending_thread_ran_other_work"] = work_by_suspender
+    ck.extra["suspensions_whose_prespawned_work_was_run_by_the_suspending_thread_meanwhile"] = prework_by_suspender
+    ck.extra["suspensions_inside_isolate"] = iso_susp
     ck.extra["suspensions_continued_on_another_thread"] = cont_other_thread
     ck.extra["unmatched_plain_loads_tolerated"] = loads
     ck.extra["runs_repeated_after_a_non_reproducible_shim_crash"] = sum(1 for r in runs if r.get("retries"))
-    for r in runs[:3]:
+    for r in runs[len(probe_runs):len(probe_runs) + 3] + wruns[:2]:
         ck.sample({"scenario": spec_name(r["spec"]), "monitor": r["mon"][:1], "completed_rounds": [":".join(x) for x in r["recs"]][:12], "window": r["window"]})
     chains = set(k[2] for k in classes if k[1] == "user")
     need_windows = {"in-callback", "after-callback-before-switch", "between-switch-and-leaver-exchange", "after-leaver-exchange"}
     ck.oblige("corr:every m_stack_state / m_is_owner_recalled access and resume-task publication of every suspend point is an enabled step of the Lean model with the same values",
               "correspondence", not bad_corr, "" if not bad_corr else "%s | %s" % (bad_corr[0]["corr"], spec_name(bad_corr[0]["spec"])))
-    ck.oblige("monitor:continuation exactly once, only after resume(), never concurrently, wait returns after it, no deadlock (random + targeted schedules)",
-              "correspondence", not bad_mon, "" if not bad_mon else "%s | %s" % (bad_mon[0][1], spec_name(bad_mon[0][0]["spec"])))
+    ck.oblige("corr:sleep path — in the guided single-thread-arena runs every access of the sleeping thread and of the resumer to my_pool_state, the resume stream's population, "
+              "the monitor's epoch / wait-set size and the recall flag, between the suspension and its continuation, is the access the Sleep model's thread makes at its "
+              "current step, with the same value (test_and_set / try_clear_if / has_tasks / prepare_wait / wake-up condition / commit_wait / notify)",
+              "correspondence", not bad_scorr and (sleep_validated > 0 or bool(bad_mon)),
+              "%d traces validated" % sleep_validated if not bad_scorr else "%s | %s" % (bad_scorr[0]["scorr"], spec_name(bad_scorr[0]["spec"])))
+    ck.oblige("monitor:continuation exactly once, only after resume(), never concurrently, wait returns after it, no deadlock / livelock (random + targeted + state-guided schedules, "
+              "suspension inside isolate, single-thread arenas, resumers that exist before the suspension, foreign resume / owner recall at every point of the sleep path)",
+              "correspondence", not bad_mon, "" if not bad_mon else "%d runs, e.g. %s | %s" % (len(bad_mon), bad_mon[0][1], spec_name(bad_mon[0][0]["spec"])))
+    ck.oblige("monitor:liveness — in an arena whose only thread is the suspending thread, the work spawned before the suspension was executed by that thread while the task was suspended",
+              "correspondence", not bad_live, "" if not bad_live else "%s | %s" % (bad_live[0][1], spec_name(bad_live[0][0]["spec"])))
     ck.oblige("coverage:both documented chains (A->S->N->A and A->N->S->N->A), owner recall, coroutine reuse and all four resume windows were exercised",
               "correspondence", bool(bad_mon) or ({"ASNA", "ANSNA"} <= chains and need_windows <= set(windows) and any(k[1] == "recall" for k in classes) and any(k[1] == "park" for k in classes)),
               "chains %s windows %s" % (sorted(chains), sorted(windows)))
+    rel = set(wclasses)
+    need_rel = [("resume", "busy"), ("resume", "unset", "not-in-waitset"), ("resume", "unset", "in-waitset", "running"), ("resume", "unset", "in-waitset", "parked"),
+                ("recall", "unset", "not-in-waitset"), ("recall", "unset", "in-waitset", "parked")]    # (recall: fi of the outer P=2 family)
+    missing = [n for n in need_rel if not any(c[:len(n)] == n for c in rel)]
+    ck.oblige("coverage:the sleep path was reached in every guided family and the resume / recall was released inside the clear transaction, after it before prepare_wait, "
+              "between prepare_wait and the semaphore, and after the thread parked; isolated suspensions and pre-spawned work run by the suspending thread occurred",
+              "correspondence", bool(bad_mon) or (not wproblems and not missing and iso_susp > 0 and prework_by_suspender > 0),
+              "probe problems: %s; release classes missing: %s; isolated suspensions %d; pre-spawned work run by the suspender %d" % (wproblems[:2], missing, iso_susp, prework_by_suspender))
+    # ---- informational probe (no obligation): a defect of the library next to this property ------------------------------------
+    # With max_allowed_parallelism 1, a resumer that is held between its push and advertise_new_work<wakeup> until the resumed
+    # task has finished and the main thread has left the arena re-marks the abandoned arena as non-empty; no worker exists to
+    # clear it, the arena is never destroyed and a blocking tbb::finalize spins forever (threading_control::wait_last_reference).
+    # The scenarios of this check avoid it by joining the resumer threads before tbb::finalize (nest bit 2 switches that off).
+    if not bad_mon and not quick:
+        fp = [(fi, j, r) for (fi, j, r) in pr if SLEEP_FAMILIES[fi][0] == ("outer", 1, "f", 0, 0)][:1]
+        hang = []
+        for fi, j, r in fp:
+            g = r["guides"]
+            if len(g) > 3 and g[1]["picks"] >= 0 and g[3]["picks"] > 0:
+                c = max(0, g[1]["picks"] - MARGIN)
+                ps = [gspec(("outer", 1, "f", 0, 4), "resume", "R:pub;L:cnt=%d|blk;F:cnt=%d|res;L:blk|cnt=6000;F:res" % (c, d), r["spec"]["seed"]) for d in range(1, g[3]["picks"] + 1)]
+                for x in run_specs(exe, ps):
+                    if mon_problem(x) and x["susp"].get(0, {}).get("cont_tid", -1) >= 0:
+                        hang.append("build/C20/sr " + " ".join("'%s'" % a if ";" in a else a for a in spec_args(x["spec"])))
+        ck.extra["library_finding_probe_blocking_finalize_hangs_after_late_advertise"] = {
+            "splits of resume() after which the continuation ran and the blocking tbb::finalize never returned": len(hang), "example": hang[:1]}
     # ---- failing-input search ----
-    if bad_mon:
-        bad_mon.sort(key=lambda x: (len(x[0]["spec"]["modes"]), x[0]["spec"]["nwork"], x[0]["spec"]["P"], x[0]["stat"].get("steps", 1 << 30)))
+    def report(bm, limit=3):
+        bm.sort(key=lambda x: (0 if x[0]["spec"]["mode"] == "guide" else 1, len(x[0]["spec"]["modes"]), x[0]["spec"]["nwork"], x[0]["spec"]["P"], x[0]["stat"].get("steps", 1 << 30)))
         seen = set()
-        for r, what in bad_mon:
-            key = cex_key(what)
+        for r, what in bm:
+            key = cex_key(what, r["spec"])
             if key in seen:
                 continue
             seen.add(key)
             ck.counterexample(key, "%s: %s" % (spec_name(r["spec"]), what), replay_obj(r, what))
-            if len(seen) >= 3:
+            if len(seen) >= limit:
                 break
-    elif bad_corr or ck.broken():
+    if bad_mon or bad_live:
+        report(bad_mon + bad_live)
+    if ck.broken():
+        ms = model_search(ck)
+        if ms:
+            ck.extra["model_level_lost_resume"] = ({"input": ms[0], "final_state": ms[1]} if isinstance(ms, tuple) else ms)
+            log("Sleep model under the generated configuration: %s" % (ms,))
+    if not (bad_mon or bad_live) and (bad_corr or bad_scorr or ck.broken()):
         log("obligation broken without a monitor violation: searching more schedules for a failing input")
         more = make_specs(ck, 300 if quick else 1500, 40 if quick else 150, salt=1)
+        more += make_specs(ck, 200 if quick else 1000, 0, families=ISO_FAMILIES, tfamilies=[], salt=5)
         runs2 = run_specs(exe, more)
+        probes2 = sleep_probes(ck, 3 if quick else 8, salt=1)
+        pres2 = run_specs(exe, [sp for _, _, sp in probes2])
+        w2, _, _ = sleep_windows([(fi, j, r) for (fi, j, _), r in zip(probes2, pres2)] if len(pres2) == len(probes2) else [])
+        runs2 += pres2 + run_specs(exe, w2)
         ck.extra["search_runs"] = len(runs2)
-        bm = [(r, mon_problem(r)) for r in runs2 if mon_problem(r)]
+        bm = [(r, mon_problem(r)) for r in runs2 if mon_problem(r)] + [(r, liveness_problem(r)) for r in runs2 if liveness_problem(r)]
         if bm:
-            bm.sort(key=lambda x: (len(x[0]["spec"]["modes"]), x[0]["spec"]["nwork"], x[0]["spec"]["P"], x[0]["stat"].get("steps", 1 << 30)))
-            r, what = bm[0]
-            ck.counterexample(cex_key(what), "%s: %s" % (spec_name(r["spec"]), what), replay_obj(r, what))
+            report(bm, 1)
 
 
 def replay(ck, obj):
     r = obj["replay"]
     exe = build()
     res = run_one(exe, r["spec"])
-    prob = mon_problem(res)
+    prob = mon_problem(res) or liveness_problem(res)
     print("scenario: %s" % spec_name(r["spec"]))
     print("monitor : %s" % (prob or "ok"))
     try:
@@ -528,6 +1047,8 @@ def replay(ck, obj):
         print("model   : %s" % (c or "trace is accepted by the model"))
     except common.BuildError as e:
         print("model   : driver unavailable (%s)" % e)
+    for g in res["guides"]:
+        print("  guide ended: %s" % g)
     for e in res["ev"]:
         if e[1] != "load":
             print("  " + " ".join(e))
